@@ -259,7 +259,11 @@ def r2(ctx, fi):
         for c in ast.walk(f.node):
             if isinstance(c, ast.Call) and (call_name(c) or '').endswith(
                     'map_across_gap') and len(c.args) == 2:
-                a0, a1 = _s(c.args[0]), _s(c.args[1])
+                # the mapped quantity is classified on its value: a local
+                # that carries it (`h = self.core.adjacent_coolant_gap_htc(i)`)
+                # is expanded flow-sensitively at the call
+                a0, a1 = _s(U.value_at(f.node, c.args[0], c.lineno)), \
+                    _s(c.args[1])
                 n += 1
                 gapq = 'gap' in a0 and 'duct_outer' not in a0
                 ok = ("'gap2duct'" in a1) == gapq and \
